@@ -11,13 +11,6 @@ CHUNK = 24
 def make_plan(pid, tier, seed, ctx, forms, meta, mode=None, select=None):
     mode = mode or pid
     progs = pipegen.program_set(tier, seed, forms)
-    # UNRESOLVED DISCREPANCY (found in the last hour of the round, thorough set only, program 566: MakeTask source, a recovery callback (signature E) returning
-    # Result ok, then a value callback returning a ready Future, the Task abandoned without being started): the generated program's native run against the real
-    # library disagrees with the reference interpreter, while a hand-written reduction of the same pipeline agrees with it.  Until it is known which side is wrong
-    # (the generator's drop form, the interpreter, or the library) abandoned pipelines that combine a recovery callback with an unwrapping (Future/Task returning)
-    # step are left out of every pipeline-based check; see DESIGN.md 8.  No quick-tier program has this shape.
-    progs = [p for p in progs if not (p.form == 'lazy' and getattr(p, 'start', None) == 'drop' and any(s.sig == 'error' for s in p.steps)
-                                      and any(s.ret.startswith('future') or s.ret.startswith('task') for s in p.steps))]
     if select:
         progs = [p for p in progs if select(p)]
     gen_dir = os.path.join(ctx['outdir'], 'gen')
